@@ -399,7 +399,7 @@ def shapes(tier, seed):
     for (g, tg, ct) in sy:
         nm = f"{g}/t{''.join(map(str, tg))}" + (f"c{''.join(map(str, ct))}" if ct else "")
         out.append(Shape(f"sympy/single/{nm}", h_sympy, dict(spec=[("H", [tg[0]], []), (g, tg, ct)] if g not in ("H",) else [(g, tg, ct)],
-                                                          n=n if n < 4 else 3, init_idx=None), modules=MODS))
+                                                          n=max(3, max(tg + ct) + 1), init_idx=None), modules=MODS))
     for i, spec in enumerate(core2[:3] if tier == "quick" else core2):
         if all(s[0] in SYMPY_OK for s in spec):
             out.append(Shape(f"sympy/comp/{i}", h_sympy, dict(spec=spec, n=3, init_idx=None), modules=MODS))
